@@ -655,3 +655,66 @@ def o7(prog):
         if bad:
             findings.append({"key": key, "where": "libzwerg/" + f["l"], "msg": bad, "detail": None})
     return inst, findings
+
+
+def o8(prog):
+    """value_attr::cmp interpreted from source on abstract attributes of two DIEs, including zero-size attributes (DW_FORM_flag_present)
+    that share their value pointer with the attribute stored after them, the same attribute obtained twice, and attributes of another
+    DIE: two attribute values are equal exactly when they are the same attribute (same DIE, same attribute code), and the order is the
+    one of (DIE offset, attribute code) - so equality and order agree and different attributes never compare equal."""
+    import itertools
+    from absint import Evaluator
+    inst, findings = [], []
+    f = prog.func_opt("value_attr::cmp")
+    if f is None or f.get("body") is None:
+        raise Broken("anchor value_attr::cmp vanished")
+    cmp_enum = None
+    for e in prog.enums.values():
+        if e["q"] == "cmp_result":
+            cmp_enum = {c["n"]: ("enum", c["n"], c["v"]) for c in e["consts"]}
+    if cmp_enum is None:
+        raise Broken("enum cmp_result vanished")
+
+    class A:
+        def __init__(self, off, code, valp):
+            self.off, self.code = off, code
+            self.m_attr = {"code": code, "valp": valp}
+            self.m_die = {"off": off}
+            self.addr = id(self)
+
+        def __repr__(self):
+            return "attr %#x of DIE %#x" % (self.code, self.off)
+
+    def three(ev, o, a):
+        x, y = a
+        return cmp_enum["less"] if x < y else (cmp_enum["greater"] if x > y else cmp_enum["equal"])
+    hooks = {
+        "zw_value::as<value_attr>": lambda ev, o, a: a[0] if isinstance(a[0], A) else None,
+        "dwarf_dieoffset": lambda ev, o, a: a[0]["off"],
+        "dwarf_whatattr": lambda ev, o, a: a[0]["code"],
+        "value_attr::get_die": lambda ev, o, a: o.m_die,
+        "compare<*": three,
+    }
+    ev = Evaluator(hooks, {}, ptr_lt=True, prog=prog)
+    # DIE 0x10: external (flag_present, zero size, shares the pointer of what follows), location, name; DIE 0x20: the same codes
+    attrs = []
+    for off in (0x10, 0x20):
+        base = off * 100
+        attrs += [A(off, 0x3f, base + 4), A(off, 0x02, base + 4), A(off, 0x03, base + 9), A(off, 0x3c, base + 20), A(off, 0x49, base + 20)]
+    attrs.append(A(0x10, 0x02, 0x10 * 100 + 4))       # the location attribute of DIE 0x10 obtained a second time
+    bad = None
+    n = 0
+    for a, b in itertools.product(attrs, repeat=2):
+        r = ev.call(f, a, [b])
+        n += 1
+        got = r[1] if isinstance(r, tuple) else r
+        ka, kb = (a.off, a.code), (b.off, b.code)
+        want = "equal" if ka == kb else ("less" if ka < kb else "greater")
+        if got != want and bad is None:
+            bad = "%r compared with %r is `%s`; expected `%s`" % (a, b, got, want)
+    inst.append(("O8:value_attr::cmp", {"pairs": n}))
+    if bad:
+        findings.append({"key": "O8:value_attr::cmp", "where": "libzwerg/" + f["l"],
+                         "msg": bad + " (equal exactly for the same attribute of the same DIE, otherwise ordered by DIE offset, then attribute code; a zero-size attribute "
+                                      "shares its value pointer with its neighbour)", "detail": None})
+    return inst, findings
